@@ -15,9 +15,9 @@ import (
 
 	"github.com/tink-crypto/tink-go/v2/aead"
 	"github.com/tink-crypto/tink-go/v2/aead/aesgcm"
-	"github.com/tink-crypto/tink-go/v2/internal/protoserialization"
 	"github.com/tink-crypto/tink-go/v2/insecurecleartextkeyset"
 	"github.com/tink-crypto/tink-go/v2/insecuresecretdataaccess"
+	"github.com/tink-crypto/tink-go/v2/internal/protoserialization"
 	"github.com/tink-crypto/tink-go/v2/jwt/jwthmac"
 	"github.com/tink-crypto/tink-go/v2/key"
 	"github.com/tink-crypto/tink-go/v2/keyset"
@@ -133,7 +133,9 @@ func runUnserializable(f []string) string {
 		{"cleartext", func(w keyset.Writer) error { return insecurecleartextkeyset.Write(h, w) },
 			func(r keyset.Reader) (*keyset.Handle, error) { return insecurecleartextkeyset.Read(r) }},
 		{"encrypted", func(w keyset.Writer) error { return h.WriteWithAssociatedData(w, kek, []byte("ad")) },
-			func(r keyset.Reader) (*keyset.Handle, error) { return keyset.ReadWithAssociatedData(r, kek, []byte("ad")) }},
+			func(r keyset.Reader) (*keyset.Handle, error) {
+				return keyset.ReadWithAssociatedData(r, kek, []byte("ad"))
+			}},
 	}
 	for _, x := range wrs {
 		for _, json := range []bool{false, true} {
